@@ -16,7 +16,15 @@
      the server must be the ones the user wrote, in that order.
 (C2) transcripts (model dump + answers to a request history through `UDSServerTransport.handle_request`) of the same
      seed / arguments - given as Python values and as command-line text - from separate interpreter processes with
-     different PYTHONHASHSEED, import orders and clock bases must be byte-identical except security-access seed bytes.
+     different PYTHONHASHSEED, import orders, clock bases and states of the process-global `random` module (left as the fresh
+     interpreter seeds it / seeded differently / advanced by different amounts; the checking process itself is two more
+     environments) must be byte-identical except security-access seed bytes.  Besides the random histories the transcripts
+     are model-directed: for every handler of RandomUDSServer.respond_after_default x every sub-function the model can
+     offer, seeds are searched per parameter set (default / dense / mid) until some model offers it, and a second in-process
+     instance of that ECU is asked for a request that reaches the positive (random-carrying) branch in that session
+     (identifier and payload search guided by the negative response codes); the coverage table (positive answers per
+     parameter set x handler x sub-function, recomputed from the live code on every run) is part of the evidence and a
+     target without a positive answer is reported as a broken tie.
 """
 import json
 import os
@@ -51,7 +59,12 @@ ASSUMPTIONS = [
     "random.Random (Mersenne Twister) seeded with a str is a function of that str; floats compared with libm pow on both sides",
     "a theorem cannot see another process: that randomize has no input besides (arguments, draw stream, choice stream) is a "
     "theorem about the model; that the code consults nothing else (request handlers, argument parsing, module state) is "
-    "carried by the draw replay and the cross-process transcript comparison over the listed environments",
+    "carried by the draw replay and the cross-process transcript comparison over the listed environments "
+    "(PYTHONHASHSEED, import order, clock base, state of the global random module, order of construction)",
+    "model-directed transcripts: the requests are found by asking a second in-process instance of the same virtual ECU; only the "
+    "requests go into the history, the answers compared are those of the separately started ECUs. Every handler x sub-function "
+    "is reached in some model of the searched seeds (ECUReset 0x01..0x7F, SecurityAccess 0x01..0x7E, RoutineControl 1..3, "
+    "ReadDTCInformation 2, the identifier services with a positive identifier / payload), not in every model",
 ]
 
 HARNESS = Path(__file__).resolve().parent.parent
@@ -498,16 +511,295 @@ def make_history(rng, services, max_sessions, per_session):
     return h
 
 
-ENVS = [  # (PYTHONHASHSEED, import order, clock base)
-    ("0", 0, 0.0), ("1", 1, 1.7e9), ("4242", 2, 3.1e9), ("random", 3, 12345.0),
-    ("7", 2, 9.9e8), ("random", 0, 2.2e9), ("4294967295", 1, 5.0), ("99", 3, 7.7e9),
+# ------------------------------------------------------------------------------------------------------------
+# model-directed transcripts: requests derived from the built model that reach the positive branch of every handler
+# ------------------------------------------------------------------------------------------------------------
+# services RandomUDSServer.respond_after_default answers itself (everything else gets a default answer of UDSServer)
+HANDLER_SIDS = {0x11: "ecu_reset", 0x27: "security_access", 0x31: "routine_control", 0x22: "read_data_by_identifier",
+                0x2E: "write_data_by_identifier", 0x2F: "input_output_control_by_identifier",
+                0x14: "clear_diagnostic_information", 0x19: "read_dtc_information"}
+DIRECTED_PARAM_SETS = [
+    # (name, RandomnessParameters, which targets are searched: "all" = every offered service x sub-function, "handlers" = HANDLER_SIDS)
+    ("default", {}, "handlers"),
+    ("dense", {"p_service": 1.0, "p_sub_function": 2.0, "p_identifier": 0.5, "p_correct_payload_format": 0.7, "p_dtc_status_mask": 0.5,
+               "p_session": 0.4, "optional_sessions": [2, 3, 0x41, 0x60]}, "all"),
+    ("mid", {"p_service": 0.6, "p_sub_function": 0.2, "p_identifier": 0.05, "p_correct_payload_format": 0.5, "p_session": 0.3}, "all"),
 ]
+
+
+def handler_names_in_code(S):
+    """the handlers respond_after_default dispatches to (read from the live source)"""
+    import inspect
+    import re
+
+    src = inspect.getsource(S.RandomUDSServer.respond_after_default)
+    return sorted(set(re.findall(r"return self\.(\w+)\(request\)", src)))
+
+
+def session_paths(services):
+    parent = {1: None}
+    queue = [1]
+    while queue:
+        a = queue.pop(0)
+        for b in (services.get(a, {}).get(0x10) or []):
+            if b in services and b not in parent:
+                parent[b] = a
+                queue.append(b)
+
+    def path(s):
+        p = []
+        while s is not None and s != 1:
+            p.append(s)
+            s = parent[s]
+        return ["1001"] + [f"10{x:02x}" for x in reversed(p)]
+
+    return parent, path
+
+
+def item_target(item):
+    """(sid, sub-function | None) a history item aims at"""
+    if item.startswith("unlock:"):
+        return 0x27, int(item[7:], 16)
+    if item.startswith("seq:"):
+        return None
+    sid = int(item[:2], 16)
+    return sid, (int(item[2:4], 16) & 0x7F if len(item) >= 4 else None)
+
+
+class Prober:
+    """a second instance of the virtual ECU inside this process, used to find - by asking the live code - requests that reach the
+    positive branch of a handler in a given session of a given model.  Only the requests found go into the history; what they
+    answer in the compared processes is not taken from here."""
+
+    def __init__(self, S, seed, params, rng, cap):
+        import asyncio
+
+        self.S, self.rng, self.cap = S, rng, cap
+        self.srv = S.RandomUDSServer(seed, S.RandomUDSServer.RandomnessParameters(**params))
+        self.loop = asyncio.new_event_loop()
+        S.time = T.Clock(0.0)
+        self.loop.run_until_complete(self.srv.setup())
+        from gallia.transports import TargetURI
+
+        self.tr = S.UDSServerTransport(self.srv, TargetURI("tcp://127.0.0.1:1"))
+        self.services = {int(s): {int(k): (None if v is None else [int(x) for x in v]) for k, v in d.items()}
+                         for s, d in self.srv.services.items()}
+        self.parent, self.path = session_paths(self.services)
+        self.sent = 0
+
+    def close(self):
+        self.loop.close()
+
+    def ask(self, item):
+        self.sent += 1
+        try:
+            return self.loop.run_until_complete(T._run_history(self.S, self.srv, [item], tr=self.tr))[0]
+        except Exception as e:  # noqa: BLE001
+            return "EXC:" + type(e).__name__
+
+    def enter(self, s):
+        if int(self.srv.state.session) != s:
+            for r in self.path(s):
+                self.ask(r)
+        return int(self.srv.state.session) == s
+
+    def rb(self, n):
+        return bytes(self.rng.randrange(256) for _ in range(n)).hex()
+
+    def candidate(self, sid, sf, ident, k):
+        """k-th candidate for (sid, sf); `ident`: identifier to keep (when the last answer said that only the format was wrong)"""
+        rb = self.rb
+        sfx = "" if sf is None else f"{sf:02x}"
+        if sid == 0x27:
+            return f"27{sfx}" if sf % 2 == 1 else f"unlock:{sfx}"
+        if sid == 0x31:
+            return f"31{sfx}" + (ident or rb(2)) + rb(self.rng.choice([0, 0, 1, 2, 4]))
+        if sid == 0x22:
+            return "22" + rb(2)
+        if sid == 0x2E:
+            return "2e" + (ident or rb(2)) + rb(self.rng.choice([1, 1, 2, 4]))
+        if sid == 0x2F:
+            return "2f" + (ident or rb(2)) + "03" + rb(self.rng.choice([1, 1, 2, 3]))
+        if sid == 0x14:
+            return "14" + ("ffffff" if k == 0 else rb(3))
+        if sid == 0x19:
+            return f"19{sfx}" + ("ff" if k == 0 else rb(1))
+        if sid == 0x3E:
+            return "3e00"
+        if sf is not None:
+            return f"{sid:02x}{sfx}" + ("" if k == 0 else rb(self.rng.choice([0, 1, 2, 3])))
+        return f"{sid:02x}" + rb(self.rng.choice([0, 1, 2, 3, 4]) if k else 2)
+
+    def find(self, s, sid, sf):
+        """-> (history items, positive found?)"""
+        pos = f"{sid + 0x40:02x}"
+        ident, keep, last_neg = None, 0, None
+        n = self.cap if sid in (0x31, 0x22, 0x2E, 0x2F, 0x14, 0x19) else 6
+        for k in range(n):
+            if not self.enter(s):
+                return [], False
+            item = self.candidate(sid, sf, ident if keep > 0 else None, k)
+            ans = self.ask(item)
+            if ans.startswith(pos):
+                out = [last_neg] if last_neg else []
+                out.append(item)
+                if sf is not None and not item.startswith("unlock:") and sid != 0x27:
+                    # the same with suppressPosRspMsgIndicationBit: no answer, same state change
+                    out += (self.path(s) if sid in (0x10, 0x11) else []) + [item[:2] + f"{sf | 0x80:02x}" + item[4:]]
+                if sid in (0x10, 0x11):
+                    out += self.path(s)
+                return out, True
+            last_neg = item
+            if ans == f"7f{sid:02x}13" and sid in (0x31, 0x2E, 0x2F):
+                if keep <= 0:
+                    ident, keep = item[4:8] if sid == 0x31 else item[2:6], 80
+                keep -= 1
+                if keep == 0:
+                    ident = None
+            else:
+                ident, keep = None, 0
+        return ([last_neg] if last_neg else []), False
+
+
+def directed_config(S, rng, seed, params, wanted, max_sessions, cap):
+    """history for one model: for every (session, service, sub-function) of the model that is still `wanted` (None = all), the
+    requests found by the prober.  -> (cfg | None, set of targets found positive)"""
+    pr = Prober(S, seed, params, rng, cap)
+    try:
+        visit = [s for s in sorted(pr.services) if s in pr.parent][:max_sessions]
+        h, found = [], set()
+        for s in visit:
+            items = []
+            for sid, sfs in pr.services[s].items():
+                for sf in ([None] if sfs is None else sfs):
+                    if wanted is not None and ((sid, sf) not in wanted or (sid, sf) in found):
+                        continue
+                    its, ok = pr.find(s, sid, sf)
+                    if ok:
+                        found.add((sid, sf))
+                        items += its
+            if items:
+                h += pr.path(s) + items
+        return ({"seed": seed, "params": params, "history": h} if h else None), found
+    finally:
+        pr.close()
+
+
+def directed_configs(ctx, impl):
+    """searches seeds per parameter set until every handler x sub-function has a request with a positive answer in some model
+    (recomputed from the live code on every run) -> (configs with `directed` = name of the parameter set, search report)"""
+    S, rng = impl.S, ctx.rng
+    cfgs, report = [], {}
+    cap = ctx.pick(4000, 12000)
+    for name, params, scope in DIRECTED_PARAM_SETS:
+        covered, chosen, tried = set(), 0, 0
+        if scope == "handlers":
+            # universe of targets the parameter set can offer in the handlers' services
+            universe = {(0x11, sf) for sf in range(1, 0x80)} | {(0x27, sf) for sf in range(1, 0x7F)} | \
+                       {(0x31, sf) for sf in (1, 2, 3)} | {(0x19, 2)} | {(sid, None) for sid in (0x22, 0x2E, 0x2F, 0x14)}
+            n_seeds = ctx.pick(1600, 6000)
+        else:
+            universe = None
+            n_seeds = ctx.pick(2, 6)
+        for seed in range(n_seeds):
+            tried += 1
+            if universe is not None:
+                srv = S.RandomUDSServer(seed, S.RandomUDSServer.RandomnessParameters(**params))
+                srv.randomize()
+                offered = {(int(sid), (None if sfs is None else int(sf))) for d in srv.services.values() for sid, sfs in d.items()
+                           for sf in ([None] if sfs is None else sfs)}
+                new = (offered & universe) - covered
+                if not new:
+                    continue
+                wanted = new
+            else:
+                wanted = None
+            cfg, found = directed_config(S, rng, seed, params, wanted, ctx.pick(2, 4), cap)
+            if cfg is not None and (found - covered or universe is None):
+                cfg["directed"] = name
+                cfgs.append(cfg)
+                chosen += 1
+                covered |= found
+            if universe is not None and covered >= universe:
+                break
+        report[name] = {"seeds_tried": tried, "models_used": chosen, "targets_with_positive_request": len(covered),
+                        "targets_possible": len(universe) if universe is not None else None}
+    S.time = __import__("time").time
+    return cfgs, report
+
+
+def directed_coverage(ctx, cfgs, runs, report):
+    """coverage table from the answers of the reference environment: positive answers per parameter set x handler x sub-function"""
+    from collections import Counter
+
+    hits = Counter()
+    for cfg, r in zip(cfgs, runs):
+        if "directed" not in cfg or not r or "answers" not in r:
+            continue
+        for item, ans in zip(cfg["history"], r["answers"]):
+            t = item_target(item)
+            if t is None or ans in ("none",) or ans.startswith(("7f", "EXC")):
+                continue
+            if ans.startswith(f"{t[0] + 0x40:02x}"):
+                hits[(cfg["directed"], t[0], t[1] if (t[0] not in (0x22, 0x2E, 0x2F, 0x14)) else None)] += 1
+    table = {}
+    for name, _p, _scope in DIRECTED_PARAM_SETS:
+        row = {}
+        for sid in sorted({k[1] for k in hits if k[0] == name}):
+            sfs = sorted(k[2] for k in hits if k[0] == name and k[1] == sid and k[2] is not None)
+            n = sum(v for k, v in hits.items() if k[0] == name and k[1] == sid)
+            label = HANDLER_SIDS.get(sid, "default-answer")
+            row[f"0x{sid:02x} {label}"] = {"positive_answers": n, "sub_functions_hit": len(sfs),
+                                           "sub_functions": ",".join(f"{x:02x}" for x in sfs) if len(sfs) <= 8 else f"{sfs[0]:02x}..{sfs[-1]:02x}"}
+            ctx.dist[f"directed:{name}:0x{sid:02x}:{label}:positive"] += n
+            if sid in HANDLER_SIDS:
+                for sf in sfs:
+                    if sid in (0x11, 0x31, 0x19) or sf <= 2:
+                        ctx.dist[f"directed:{name}:0x{sid:02x}/sf=0x{sf:02x}:positive"] += hits[(name, sid, sf)]
+        table[name] = row
+    ctx.notes["c2_directed"] = {"search": report, "coverage": table}
+    # the dimension must really be covered: every handler in every parameter set, every ECUReset sub-function in the dense one
+    missing = []
+    for name, _p, _scope in DIRECTED_PARAM_SETS:
+        for sid in HANDLER_SIDS:
+            if not any(k[0] == name and k[1] == sid for k in hits):
+                missing.append(f"{name}:0x{sid:02x}")
+    for sid, sfs in ((0x11, range(1, 0x80)), (0x31, (1, 2, 3)), (0x27, range(1, 0x7F)), (0x19, (2,))):
+        for sf in sfs:
+            if not any(hits.get((name, sid, sf)) for name, _p, _s in DIRECTED_PARAM_SETS):
+                missing.append(f"any:0x{sid:02x}/0x{sf:02x}")
+    return hits, missing
+
+
+ENVS = [  # (PYTHONHASHSEED, import order, clock base, state of the GLOBAL random module: None = as the fresh interpreter seeds it | [seed, draws])
+    ("0", 0, 0.0, [1, 0]), ("1", 1, 1.7e9, [2, 0]), ("4242", 2, 3.1e9, [1, 17]), ("random", 3, 12345.0, None),
+    ("7", 2, 9.9e8, [12345, 1000]), ("random", 0, 2.2e9, [0, 3]), ("4294967295", 1, 5.0, None), ("99", 3, 7.7e9, ["vecu", 250]),
+]
+PARENT_GLOBAL_RANDOM = ([99, 5], [1, 0])  # the two passes of the parent process
+
+
+def env_dict(env):
+    return {"PYTHONHASHSEED": env[0], "import_order": env[1], "clock_base": env[2], "global_random": env[3] if len(env) > 3 else None}
+
+
+class GlobalRandom:
+    """puts the process-global `random` module into a given state and restores the previous one afterwards"""
+
+    def __init__(self, spec):
+        self.spec = spec
+
+    def __enter__(self):
+        self.saved = _random.getstate()
+        T.set_global_random(self.spec)
+
+    def __exit__(self, *a):
+        _random.setstate(self.saved)
 
 
 def run_children(configs, envs):
     job_base = {"configs": configs}
     procs = []
-    for k_env, (hs, order, base) in enumerate(envs):
+    for k_env, (hs, order, base, *rest) in enumerate(envs):
         env = {**os.environ, "PYTHONHASHSEED": hs, "GALLIA_REPO": str(REPO)}
         env.pop("PYTHONPATH", None)
         p = subprocess.Popen([PY, str(HARNESS / "c16_transcript.py")], stdin=subprocess.PIPE, stdout=subprocess.PIPE,
@@ -518,7 +810,8 @@ def run_children(configs, envs):
             perm.reverse()
         elif k_env % 3 == 2:
             perm = perm[n // 2:] + perm[: n // 2]
-        procs.append((p, json.dumps({**job_base, "import_order": order, "clock_base": base, "order": perm}).encode()))
+        procs.append((p, json.dumps({**job_base, "import_order": order, "clock_base": base, "order": perm,
+                                     "global_random": rest[0] if rest else None}).encode()))
     outs = []
     # feed / collect (jobs are small enough for communicate in sequence while all run concurrently)
     import threading
@@ -768,22 +1061,44 @@ def check_c2(ctx, impl, c1_cases, c1_results, cli_cases=()):
     for cfg in cfgs:
         r = impl.randomize(cfg.get("seed"), cfg.get("params"), None, cfg.get("argv"))
         cfg["history"] = make_history(rng, r.get("services", {}), ctx.pick(4, 8), ctx.pick(24, 60)) if r["error"] is None else ["3e00"]
+    # model-directed: requests that reach the positive branch of every handler x sub-function in some model
+    handlers = handler_names_in_code(S)
+    if handlers != sorted(HANDLER_SIDS.values()):
+        ctx.disagree("c2:handlers-changed", "RandomUDSServer.respond_after_default dispatches to other handlers than the ones the "
+                     "directed transcripts cover", {"kind": "c2", "env": env_dict(ENVS[0]), "configs": []}, impl=handlers,
+                     model=sorted(HANDLER_SIDS.values()), spec_violated=False, site="RandomUDSServer.respond_after_default")
+    dcfgs, dreport = directed_configs(ctx, impl)
+    cfgs += dcfgs
     envs = ENVS[: ctx.pick(4, 8)]
     outs = run_children(cfgs, envs)
-    # this process is one more environment
-    here = {"defaults": T.defaults_fingerprint(S), "runs": []}
-    for cfg in cfgs:
-        if "argv" in cfg:  # command lines are compared between the child processes only (their hash seeds are fixed)
-            here["runs"].append(None)
-            continue
-        try:
-            here["runs"].append(T.transcript(S, cfg, clock_base=5.0e8))
-        except Exception as e:  # noqa: BLE001
-            here["runs"].append({"error": type(e).__name__ + ": " + str(e)[:200]})
+
+    # this process is two more environments (two states of the global random module, two clock bases)
+    def in_process(spec, base):
+        res = {"defaults": T.defaults_fingerprint(S), "runs": []}
+        with GlobalRandom(spec):
+            for cfg in cfgs:
+                if "argv" in cfg:  # command lines are compared between the child processes only (their hash seeds are fixed)
+                    res["runs"].append(None)
+                    continue
+                try:
+                    res["runs"].append(T.transcript(S, cfg, clock_base=base))
+                except Exception as e:  # noqa: BLE001
+                    res["runs"].append({"error": type(e).__name__ + ": " + str(e)[:200]})
+        return res
+
+    here = in_process(PARENT_GLOBAL_RANDOM[0], 5.0e8)
+    here2 = in_process(PARENT_GLOBAL_RANDOM[1], 4.0e9)
     S.time = __import__("time").time
-    envs_all = [("parent", "parent", 5.0e8)] + list(envs)
-    outs_all = [here] + outs
+    envs_all = [("parent", "parent", 5.0e8, PARENT_GLOBAL_RANDOM[0]), ("parent", "parent", 4.0e9, PARENT_GLOBAL_RANDOM[1])] + list(envs)
+    outs_all = [here, here2] + outs
     ref = outs_all[0]
+    _hits, missing = directed_coverage(ctx, cfgs, ref["runs"], dreport)
+    if missing:
+        ctx.disagree("c2:directed-coverage-missing:" + missing[0].split(":")[1],
+                     f"no request with a positive answer found for {len(missing)} handler x sub-function targets ({', '.join(missing[:6])}"
+                     f"{' ...' if len(missing) > 6 else ''}): the transcripts no longer reach every random-carrying branch",
+                     {"kind": "c2", "env": env_dict(ENVS[0]), "configs": []}, impl=missing[:40], model="every target has a positive answer",
+                     spec_violated=False, site="harness/props/C16.py directed_configs")
     n_req = sum(len(c["history"]) for c in cfgs)
     ctx.notes["c2"] = {"configurations": len(cfgs), "requests_per_environment": n_req, "environments": len(envs_all),
                        "command_lines": sum(1 for c in cfgs if "argv" in c),
@@ -792,13 +1107,13 @@ def check_c2(ctx, impl, c1_cases, c1_results, cli_cases=()):
                        "exceptions_in_reference": sum(1 for r in ref["runs"] if r for a in r.get("answers", []) if a.startswith("EXC"))}
     first_child = next((o for o in outs if "error" not in o), None)
     for env, o in zip(envs_all[1:], outs_all[1:]):
-        envd = {"PYTHONHASHSEED": env[0], "import_order": env[1], "clock_base": env[2]}
+        envd = env_dict(env)
         if "error" in o:
             ctx.disagree("c2:child-failed", "transcript process failed: " + o["error"][-300:], {"kind": "c2", "env": envd},
                          spec_violated=False, site="harness/c16_transcript.py")
             continue
         ctx.ev(len(cfgs))
-        ctx.kind(*[f"xproc:hashseed={env[0]},imports={env[1]}"] * len(cfgs))
+        ctx.kind(*[f"xproc:hashseed={env[0]},imports={env[1]},global-random={'fresh' if env[3] is None else 'seed %s+%s draws' % tuple(env[3])}"] * len(cfgs))
         if o["defaults"] != ref["defaults"]:
             fld = next(k for k in ref["defaults"] if ref["defaults"][k] != o["defaults"][k])
             ctx.disagree("c2:default-arguments-differ:" + fld,
@@ -807,7 +1122,7 @@ def check_c2(ctx, impl, c1_cases, c1_results, cli_cases=()):
                          spec_violated=True, site="RandomUDSServer.RandomnessParameters")
         for k, (cfg, a, b) in enumerate(zip(cfgs, ref["runs"], o["runs"])):
             if "argv" in cfg:
-                if first_child is None or o is first_child:
+                if first_child is None or o is first_child or b is None:
                     continue
                 a = first_child["runs"][k]
                 ctx.kind("xproc:command-line")
@@ -839,7 +1154,9 @@ def check_c2(ctx, impl, c1_cases, c1_results, cli_cases=()):
             i = next(k for k, (x, y) in enumerate(zip(a["answers"], b["answers"])) if x != y)
             req = cfg["history"][i]
             sid = "27" if req.startswith("unlock:") else ("27+" + req.split("|")[-1][:2] if req.startswith("seq:") else req[:2])
-            ctx.disagree("c2:answer-differs:sid=" + sid, f"same seed, arguments and history: answer to request {i} ({req}) differs between processes",
+            ctx.disagree("c2:answer-differs:sid=" + sid, f"same seed, arguments and history: answer to request {i} ({req}) differs between "
+                         + ("two states of the global random module within one process" if env[0] == "parent" else "processes")
+                         + (f" [directed: {cfg['directed']} parameters]" if "directed" in cfg else ""),
                          {"kind": "c2", "env": envd, "configs": [{**cfg, "history": cfg["history"][: i + 1]}]},
                          impl=b["answers"][i], model=a["answers"][i], spec_violated=True, site="RandomUDSServer.respond")
     ctx.sample({"c2_config": {"seed": cfgs[0]["seed"], "params": cfgs[0]["params"], "history_head": cfgs[0]["history"][:12]},
@@ -1071,10 +1388,18 @@ def replay(ctx, case):
     if c.get("kind") == "c2":
         cfgs = c.get("configs", [])
         env = c["env"]
-        outs = run_children(cfgs, [(str(env["PYTHONHASHSEED"]), env["import_order"], env["clock_base"]), ("0", 0, 0.0)])
-        here = [T.transcript(impl.S, cfg, clock_base=5.0e8) for cfg in cfgs]
-        print(json.dumps({"this_process": here, "recorded_env": outs[0], "hashseed0": outs[1]}, indent=1))
-        return any(o.get("runs") != here for o in outs)
+        hs, gr = str(env["PYTHONHASHSEED"]), env.get("global_random")
+        in_parent = hs == "parent"  # the recorded environment was the checking process itself under another global random state
+        outs = run_children(cfgs, [("0" if in_parent else hs, 0 if in_parent else env["import_order"], env["clock_base"], gr),
+                                   ("0", 0, 0.0, [7, 0])])
+        with GlobalRandom(PARENT_GLOBAL_RANDOM[0]):
+            here = [T.transcript(impl.S, cfg, clock_base=5.0e8) for cfg in cfgs]
+        with GlobalRandom(gr if gr is not None else PARENT_GLOBAL_RANDOM[1]):
+            here2 = [T.transcript(impl.S, cfg, clock_base=4.0e9) for cfg in cfgs]
+        impl.S.time = __import__("time").time
+        print(json.dumps({"configs": cfgs, "this_process": here, "this_process_other_global_random_state": here2,
+                          "recorded_env": outs[0], "hashseed0": outs[1]}, indent=1))
+        return any(o.get("runs") != here for o in outs) or here2 != here
     r = impl.randomize(c.get("seed"), c.get("params"), c.get("script"), c.get("argv"))
     if r["error"]:
         print("implementation raises:", r["error"])
@@ -1115,7 +1440,11 @@ MANIFEST = {
                    "str(seed) alone, a scripted RNG enumerating every Boolean draw stream on small universes, servers built directly "
                    "and through the real command line; (C2) byte-identical transcripts (model + answers to request histories via "
                    "UDSServerTransport.handle_request) from separate interpreter processes with different PYTHONHASHSEED, import "
-                   "orders and clock bases, arguments given as values and as command-line text, security-access seeds masked."),
+                   "orders, clock bases and states of the global random module (fresh / seeded differently / advanced by different "
+                   "amounts, plus two states inside the checking process), arguments given as values and as command-line text, "
+                   "security-access seeds masked; the histories are random and model-directed (seed search per parameter set until "
+                   "every handler x sub-function of the virtual ECU is offered by some model, then a request with a positive answer "
+                   "found by probing the live code; coverage table in the evidence)."),
     "level_note": ("Trusted: Lean kernel (axioms propext, Quot.sound, Classical.choice), the generated tables, the harness, CPython's "
                    "random.Random, libm pow; the set model is a transcription validated against the running interpreter, not derived "
                    "from the C source. Partial: a theorem cannot see another process - that the code consults nothing but seed and "
@@ -1124,6 +1453,7 @@ MANIFEST = {
                    "0x7F; set elements below 2^61-1."),
     "technique": ("Lean 4 proof (full-period lemma, probe-loop invariants, simulation of the set-order-free model by the oracle model, "
                   "invariants over folds, well-founded level loop) + differential test of the set model + recorded-draw replay "
-                  "without recorded order + cross-process transcript comparison incl. the command-line path"),
+                  "without recorded order + cross-process transcript comparison incl. the command-line path, model-directed "
+                  "request histories and differing global-random states"),
     "design_ref": "DESIGN.md section 7, C16",
 }
